@@ -303,6 +303,34 @@ fn c08_reload_after_clear() {
     core::mem::forget(d);
 }
 
+#[cfg(kani)]
+fn plain_dictionary_3x3() -> Dictionary {
+    Dictionary::verif_from_parts(
+        lexicon_of(&L_A_AB, 3, 3, LexType::System),
+        None,
+        ConnectorWrapper::Matrix(sym_matrix(3, 3)),
+        None,
+        char_prop_of(&CATS_MIX),
+        unk_of(&[1, 1, 1], 3, 3),
+    )
+}
+
+//@ c08_user_ids_at_bound_rejected {"desc":"a user CSV row whose left or right connection id equals the connector's size (the first id outside it) is rejected by reset_user_lexicon_from_reader, on either side","bounds":"dictionary system {a,ab}, 3x3 matrix; CSV rows \"b,1,3,5,u\" (right id at the bound) and \"b,3,1,5,u\" (left id at the bound)","symbolic":"system parameters, matrix","functions":["Dictionary::reset_user_lexicon_from_reader","Lexicon::from_reader","Lexicon::parse_csv","Lexicon::verify"],"fs":5000,"unwind":24,"timeout":2400,"mem_gb":24,"covers":"none","stubs":["alloc::fmt::format","csv_core::Reader::new (NFA mode)","csv_core::Reader::build_dfa","Lexicon::from_entries (trie for {b} prebuilt natively)"]}
+#[cfg(kani)]
+#[kani::proof]
+#[kani::stub(alloc::fmt::format, crate::c06::stub_format)]
+#[kani::stub(csv_core::Reader::new, crate::csvstub::stub_reader_new)]
+#[kani::stub(csv_core::Reader::build_dfa, crate::csvstub::stub_build_dfa)]
+#[kani::stub(vibrato::verif_hooks::Lexicon::from_entries, stub_from_entries_b)]
+fn c08_user_ids_at_bound_rejected() {
+    let r = plain_dictionary_3x3().reset_user_lexicon_from_reader(Some(&b"\x02,1,3,5,u\n"[..]));
+    assert!(r.is_err(), "a user word whose right id is the first one outside the connector was accepted");
+    core::mem::forget(r);
+    let r = plain_dictionary_3x3().reset_user_lexicon_from_reader(Some(&b"\x02,3,1,5,u\n"[..]));
+    assert!(r.is_err(), "a user word whose left id is the first one outside the connector was accepted");
+    core::mem::forget(r);
+}
+
 //@ c08_twin {"expect":"fail","desc":"vacuity twin: claims the user word is never chosen","bounds":"as c08_user_equals_extended_system","symbolic":"costs, ids, matrix","functions":["Worker::tokenize"],"fs":2048,"unwind":7,"timeout":1200,"covers":"none"}
 #[cfg(kani)]
 #[kani::proof]
